@@ -9,6 +9,7 @@ import Rpcx.Driver.Fanout
 import Rpcx.Driver.Discovery
 import Rpcx.Driver.Mux
 import Rpcx.Driver.Server
+import Rpcx.Driver.Ingress
 /-
   Line-protocol driver: one operation per input line, one canonical output line per
   operation.  Runs the executable definitions of the model (generated and hand-written);
@@ -32,6 +33,7 @@ def step (line : String) : String :=
   | "filter" :: ws => cmdFilter ws
   | "mux" :: ws => cmdMux ws
   | "srv" :: ws => cmdSrv ws
+  | "ing" :: ws => cmdIng ws
   | _ => "bad-op"
 
 partial def loop (hin : IO.FS.Stream) (hout : IO.FS.Stream) : IO Unit := do
